@@ -40,6 +40,12 @@ type Freshness struct {
 	IsStale    bool          // Whether the response is stale
 	Age        *Age          // Current age (seconds) of the response (RFC9111 §4.2.3)
 	UsefulLife time.Duration // Freshness lifetime (seconds) of the response (RFC9111 §4.2.1)
+
+	// Expired reports whether the age has reached the response's own freshness
+	// lifetime, whatever staleness the request is willing to accept.
+	Expired bool
+	// ReqMaxAgeExceeded reports whether the age has reached the request's max-age.
+	ReqMaxAgeExceeded bool
 }
 
 var _ slog.LogValuer = (*Freshness)(nil)
@@ -133,9 +139,11 @@ func (f *freshnessCalculator) CalculateFreshness(
 ) *Freshness {
 	if reqMaxAge, ok := reqCC.MaxAge(); ok && reqMaxAge == 0 {
 		return &Freshness{
-			IsStale:    true,
-			Age:        &Age{Value: 0, Timestamp: f.clock.Now()},
-			UsefulLife: 0,
+			IsStale:           true,
+			Age:               &Age{Value: 0, Timestamp: f.clock.Now()},
+			UsefulLife:        0,
+			Expired:           true,
+			ReqMaxAgeExceeded: true,
 		}
 	}
 
@@ -169,12 +177,21 @@ func (f *freshnessCalculator) CalculateFreshness(
 		}
 	}
 
+	expired := currentAge.Value >= usefulLife
+	reqMaxAgeExceeded := false
 	if reqMaxAge, ok := reqCC.MaxAge(); ok && reqMaxAge > 0 {
 		usefulLife = min(usefulLife, reqMaxAge) // Client prefers a response no older than max-age
+		reqMaxAgeExceeded = currentAge.Value >= reqMaxAge
 	}
 	if reqMinFresh, ok := reqCC.MinFresh(); ok && reqMinFresh > 0 &&
 		(usefulLife-currentAge.Value) < reqMinFresh {
-		return &Freshness{IsStale: true, Age: currentAge, UsefulLife: usefulLife}
+		return &Freshness{
+			IsStale:           true,
+			Age:               currentAge,
+			UsefulLife:        usefulLife,
+			Expired:           expired,
+			ReqMaxAgeExceeded: reqMaxAgeExceeded,
+		}
 	}
 
 	maxStale := time.Duration(0)
@@ -192,5 +209,11 @@ func (f *freshnessCalculator) CalculateFreshness(
 		isStale = false
 	}
 
-	return &Freshness{IsStale: isStale, Age: currentAge, UsefulLife: usefulLife}
+	return &Freshness{
+		IsStale:           isStale,
+		Age:               currentAge,
+		UsefulLife:        usefulLife,
+		Expired:           expired,
+		ReqMaxAgeExceeded: reqMaxAgeExceeded,
+	}
 }
